@@ -538,6 +538,23 @@ func (x *Exec) allocRef(st *St, ty types.Type, hint string) *Term {
 	x.assume(st, Eq(nal, Store(al, r, True)))
 	st.heap["$alloc"] = nal
 	st.fresh = append(st.fresh, r)
+	// ghost counters and flags of a fresh object start at zero (sync.WaitGroup.added, errgroup.Group.failed, ...): the
+	// zero value of those library types is their initial state
+	if _, ok := ty.(*types.Named); ok {
+		prefix := x.W.StructKey(ty) + "."
+		for _, k := range x.W.FieldOrder {
+			f := x.W.Fields[k]
+			if f == nil || !f.Ghost || !strings.HasPrefix(k, prefix) {
+				continue
+			}
+			switch f.Sort {
+			case SInt:
+				x.assume(st, Eq(Select(st.field(f), r), IntLit(0)))
+			case SBool:
+				x.assume(st, Eq(Select(st.field(f), r), False))
+			}
+		}
+	}
 	return r
 }
 
